@@ -103,6 +103,31 @@ def run(tier, seed):
             rep.violation("shape_%s" % job["id"].replace("/", "_"), {"property": PROP, "why": why, "shape": n, "limit_ms": l,
                                                                        "source": src, "actual": None if r.get("status") != "done" else [
                     {k: s.get(k) for k in ("status", "value", "err_class", "stdout", "wall_ms", "state")} for s in r["steps"]]})
+    # the limit is armed anew for every run: after a run that ended with an error (thrown, or the timeout itself), terminating
+    # scripts that are long enough to reach the runtime's deadline polls are unaffected, and a runaway script still gets the full limit
+    LONG = "n = 0\nfor i in 0..1500000\n  n += 1\nn\n"
+    RL = 3000
+    rearm = [("after_throw", ["throw 'oops'\n", LONG, "loop\n  y = 1\n", LONG]),
+             ("after_timeout", ["loop\n  y = 1\n", LONG, "f = |n|\n  if n == 0\n    throw 'deep'\n  f(n - 1)\nf 5\n", LONG, LONG]),
+             ("after_callback_error", ["(3, 1, 2).to_list().sort |x| throw 'key'\n", LONG, "[1, 2].each(|x| x.nope()).consume()\n", LONG])]
+    rjobs = [{"id": "rearm_" + nm, "limit_ms": RL, "ops": [{"op": "run", "src": "export probe = 20\n"}] + [{"op": "run", "src": x} for x in srcs]} for nm, srcs in rearm]
+    rres = common.kv_parallel("session", rjobs, shards=3, per_job_timeout=120)
+    for (nm, srcs), job, r in zip(rearm, rjobs, rres):
+        why = None
+        if r.get("status") != "done":
+            why = "implementation %s (%s)" % (r.get("status"), (r.get("err_msg") or "")[:200])
+        else:
+            for src, stp in zip(srcs, r["steps"][1:]):
+                if src == LONG and (stp["status"] != "ok" or stp.get("value") != "1500000"):
+                    why = "a terminating script (%d ms) was affected by the limit of %d ms after an earlier run ended with an error: %s %s" % (
+                        stp["wall_ms"], RL, stp["status"], (stp.get("err_msg") or stp.get("value") or "")[:120])
+                elif src.startswith("loop") and (stp.get("err_class") != "timeout" or not (RL * 0.9 <= stp["wall_ms"] <= 2 * RL + 1000)):
+                    why = "a runaway script run after an error did not get the limit of %d ms: %s after %d ms" % (RL, stp.get("err_class") or stp["status"], stp["wall_ms"])
+                if why:
+                    break
+        if why:
+            rep.violation("rearm_" + nm, {"property": PROP, "why": why, "rearm": nm, "sources": srcs, "limit_ms": RL,
+                                          "actual": None if r.get("status") != "done" else [{k: s0.get(k) for k in ("status", "value", "err_class", "wall_ms")} for s0 in r["steps"]]})
     verdicts, tst = vmtrace.validate([{"id": t["id"], "events": t["events"]} for t in traces], tag="c08")
     for t in traces:
         v = verdicts[t["id"]]
@@ -113,7 +138,7 @@ def run(tier, seed):
     nev = sum(len(t["events"]) for t in traces)
     # design level: the operational model of vm.rs against the same rules, the timeout bugs it must reject, and liveness
     import mc_kotovm
-    mc = mc_kotovm.run(tier, bugs=("timeout_catch", "timeout_text"), liveness=True)
+    mc = mc_kotovm.run(tier, bugs=("timeout_catch", "timeout_text", "stale_deadline"), liveness=True)
     if "design_rejected" in mc or "liveness_violated" in mc:
         rep.violation("design_model", {"property": PROP, "why": "MC_KotoVm.tla: %s" % (mc.get("design_rejected") or "TimeoutEventuallyFires violated"), "tlc": mc.get("tlc")})
     rep.coverage = {
@@ -125,7 +150,7 @@ def run(tier, seed):
         "rule": "shape = spinning construct {loop, while, until, for over an endless generator, unbounded recursion, nested "
                 "loops} x position {top level, function, method, overloaded operator, generator body consumed by for, "
                 "functor of each / fold, @display} x enclosing try/catch/finally depth 0..2 (%d shapes) x limits %s ms; "
-                "quick samples 48" % (len(allshapes), limits),
+                "quick samples 48; 3 sessions in which terminating scripts of 1.5M iterations and runaway scripts follow runs that ended with an error (limit 3000 ms)" % (len(allshapes), limits),
         "hook_events_validated": nev, "shapes_total": len(allshapes), "exhaustive": not quick,
     }
     rep.assumptions = ["real time is outside TLA+: the bound 2*limit + 1 s is a harness assertion",
@@ -136,6 +161,13 @@ def run(tier, seed):
 
 def replay(path):
     d = json.load(open(path))
+    if "rearm" in d:
+        r = common.kv("session", [{"id": "replay", "limit_ms": d["limit_ms"], "ops": [{"op": "run", "src": "export probe = 20\n"}] + [{"op": "run", "src": x} for x in d["sources"]]}], per_job_timeout=120)[0]
+        bad = r.get("status") != "done" or any(x.startswith("n = 0") and stp["status"] != "ok" for x, stp in zip(d["sources"], r["steps"][1:]))
+        print(d["why"]); print([(stp["status"], stp.get("err_class"), stp["wall_ms"]) for stp in r.get("steps", [])])
+        if bad:
+            print("VIOLATION property=%s replay=%s" % (PROP, path)); return 1
+        return 0
     l = d.get("limit_ms", 60)
     r = common.kv("session", [{"id": "replay", "limit_ms": l, "ops": [{"op": "run", "src": d["source"]}, {"op": "run", "src": "1 + 1\n"}]}])[0]
     s = r["steps"][0]
